@@ -31,6 +31,51 @@ class HarnessError(Exception):
     """The machinery itself failed (exit code 2)."""
 
 
+# --------------------------------------------------------------------------- translated kernels (Gen layer)
+
+TRANSLATION = {'regenerated': False, 'identical_to_committed': None, 'problems': {}, 'lean_dir': None, 'changed_files': []}
+_SCRATCH = []
+
+
+def sync_translation():
+    """Regenerate lean/MsmVerif/Gen/*.lean from $VERIF_REPO/src with harness/py2lean.py.  If the text equals what is in the
+    Lean tree nothing happens; otherwise the Lean project (with its build cache) is copied to a scratch directory, the new
+    text is written there and LEAN_DIR is redirected to it, so that the refinement theorems are re-checked against what the
+    code says NOW while the committed tree (and runs that share it) stays untouched."""
+    global LEAN_DIR
+    import atexit
+    import shutil
+    import tempfile
+    import py2lean
+    files, probs = py2lean.translate_all(REPO)
+    TRANSLATION['regenerated'] = True
+    TRANSLATION['problems'] = {k: v for k, v in probs.items() if v}
+    gen_dir = os.path.join(LEAN_DIR, 'MsmVerif', 'Gen')
+    changed = []
+    for fn, text in files.items():
+        if text is None:
+            text = '/- GENERATED: translation of this module failed: %s -/\nimport MsmVerif.Gen.PyRt\n' % '; '.join(probs.get(fn, []))[:500]
+            files[fn] = text
+        path = os.path.join(gen_dir, fn)
+        old = open(path).read() if os.path.exists(path) else None
+        if old != text:
+            changed.append(fn)
+    TRANSLATION['changed_files'] = changed
+    TRANSLATION['identical_to_committed'] = not changed
+    if not changed:
+        return
+    scratch = tempfile.mkdtemp(prefix='msmverif_lean_')
+    _SCRATCH.append(scratch)
+    atexit.register(lambda: shutil.rmtree(scratch, ignore_errors=True))
+    dst = os.path.join(scratch, 'lean')
+    shutil.copytree(LEAN_DIR, dst, symlinks=True, ignore=shutil.ignore_patterns('scratch', 'tasks'))
+    for fn in changed:
+        with open(os.path.join(dst, 'MsmVerif', 'Gen', fn), 'w') as fh:
+            fh.write(files[fn])
+    LEAN_DIR = dst
+    TRANSLATION['lean_dir'] = dst
+
+
 # --------------------------------------------------------------------------- Lean build / audit
 
 def _run(cmd, cwd=None, inp=None, timeout=None):
@@ -45,6 +90,16 @@ def lean_build(targets=None, clean=False):
     cmd = ['lake', 'build'] + (targets or [])
     r = _run(cmd, cwd=LEAN_DIR, timeout=3600)
     return r.returncode == 0, (r.stdout + r.stderr)[-4000:], time.time() - t0
+
+
+def lean_build_modules(mods):
+    """build each module on its own: {module: (ok, log_tail)} — a refinement module that no longer compiles must not hide
+    the theorems of the other modules of the property"""
+    res = {}
+    for m in mods:
+        r = _run(['lake', 'build', m], cwd=LEAN_DIR, timeout=3600)
+        res[m] = (r.returncode == 0, (r.stdout + r.stderr)[-2500:])
+    return res
 
 
 def strip_comments(src):
@@ -89,7 +144,7 @@ def registry():
     return json.load(open(os.path.join(LEAN_DIR, 'registry.json')))
 
 
-def axiom_audit(pid):
+def axiom_audit(pid, built=None):
     """`#print axioms` for every theorem registered for `pid`.
 
     Returns a list of dicts {name, statement, axioms, ok, why}.
@@ -101,14 +156,21 @@ def axiom_audit(pid):
         return []
     auditdir = os.path.join(LEAN_DIR, '.lake', 'audit')
     os.makedirs(auditdir, exist_ok=True)
-    path = os.path.join(auditdir, 'Audit_%s.lean' % pid)
-    with open(path, 'w') as fh:
-        for m in mods:
+    built = built or {}
+    text = ''
+    for m in mods:
+        mine = [t for t in thms if t.get('module', mods[0]) == m]
+        if not mine:
+            continue
+        if m in built and not built[m][0]:
+            continue          # module does not compile: its theorems stay undischarged
+        path = os.path.join(auditdir, 'Audit_%s_%s.lean' % (pid, m.split('.')[-1]))
+        with open(path, 'w') as fh:
             fh.write('import %s\n' % m)
-        for t in thms:
-            fh.write('#print axioms %s\n' % t['name'])
-    r = _run(['lake', 'env', 'lean', path], cwd=LEAN_DIR, timeout=1800)
-    text = r.stdout + r.stderr
+            for t in mine:
+                fh.write('#print axioms %s\n' % t['name'])
+        r = _run(['lake', 'env', 'lean', path], cwd=LEAN_DIR, timeout=1800)
+        text += r.stdout + r.stderr + '\n'
     # join continuation lines
     flat = re.sub(r'\n\s+', ' ', text)
     res = []
@@ -126,7 +188,11 @@ def axiom_audit(pid):
             entry['axioms'] = []
             entry['ok'] = True
         else:
-            entry['why'] = 'theorem not found / does not check: ' + text[-400:]
+            m = t.get('module')
+            if m and built and m in built and not built[m][0]:
+                entry['why'] = 'module %s no longer compiles: %s' % (m, built[m][1][-500:])
+            else:
+                entry['why'] = 'theorem not found / does not check: ' + text[-400:]
         res.append(entry)
     return res
 
